@@ -1,7 +1,10 @@
 // C08 harness: the real Tokenizer run in-process on a printed scope program (as test/helpers.h SimpleTokenizer drives it:
 // TokenList + Tokenizer); prints the variable id of every tracked name token at two stages.
 //
-// op line:  <c|cpp> <hexsource>
+// op line:  <c|cpp> <hexsource>            varids (model tie)
+//           link <hexsource>               C++: what every token spelled v<digits> / f<digits> is LINKED to after the complete
+//                                          simplifyTokens1 (SymbolDatabase): `<line>:V<line of Variable::nameToken>`,
+//                                          `<line>:F<line of Function::tokenDef>`, `<line>:-` (not linked)
 // output :  ok A <line>:<varid> ... | B <line>:<varid> ...
 //              A = after Tokenizer::simplifyTokenList1 (the token-list passes up to and including setVarId: what the
 //                  model of VariableMap / setVarIdPass1 describes)
@@ -30,6 +33,7 @@
 #include "errorlogger.h"
 #include "errortypes.h"
 #include "standards.h"
+#include "symboldatabase.h"
 #define private public
 #include "tokenize.h"
 #undef private
@@ -82,11 +86,47 @@ static std::string run(const Settings& settings, bool cpp, const std::string& co
     }
 }
 
+static bool trackedVF(const std::string& s) {
+    if (s.size() < 2 || (s[0] != 'v' && s[0] != 'f')) return false;
+    for (size_t i = 1; i < s.size(); ++i) if (!std::isdigit(static_cast<unsigned char>(s[i]))) return false;
+    return true;
+}
+
+static std::string links(const Settings& settings, const std::string& code) {
+    Quiet logger;
+    try {
+        Tokenizer tokenizer{TokenList{settings, Standards::Language::CPP}, logger};
+        tokenizer.list.appendFileIfNew("test.cpp");
+        if (!tokenizer.list.createTokensFromBuffer(code.data(), code.size()))
+            return "err createTokens";
+        if (!tokenizer.simplifyTokens1(""))
+            return "err simplifyTokens1";
+        std::string out = "ok";
+        for (const Token* t = tokenizer.tokens(); t; t = t->next()) {
+            if (!t->isName() || !trackedVF(t->str()))
+                continue;
+            out += " " + std::to_string(t->linenr()) + ":";
+            if (t->variable() && t->variable()->nameToken())
+                out += "V" + std::to_string(t->variable()->nameToken()->linenr());
+            else if (t->function() && t->function()->tokenDef)
+                out += "F" + std::to_string(t->function()->tokenDef->linenr());
+            else
+                out += "-";
+        }
+        return out;
+    } catch (const InternalError& e) {
+        return "err InternalError:" + e.id;
+    } catch (const std::exception&) {
+        return "err exception";
+    }
+}
+
 int main() {
     Settings settings;
     std::string line;
     while (std::getline(std::cin, line)) {
         std::vector<std::string> f = fields(line);
+        if (f.size() == 2 && f[0] == "link") { std::cout << links(settings, unhex(f[1])) << std::endl; continue; }
         if (f.size() != 2 || (f[0] != "c" && f[0] != "cpp")) { std::cout << "bad-op" << std::endl; continue; }
         const bool cpp = f[0] == "cpp";
         const std::string code = unhex(f[1]);
